@@ -42,6 +42,10 @@ CLAIMED["C11"] = ("E-SEQ", ESEQ + "; 12 operator/default-mode configurations", "
     "Per configuration every sequence up to the bound of OPER (right/wrong), MODE on own/foreign nicks with o/O/w/i and sign switches, NICK to/from the configured operator name, KILL/WALLOPS/STATS/DIE/SQUIT from every privilege level; the operator flag changes only as the statement allows, privileged commands act only for operators and exactly as stated.", NOTE)
 CLAIMED["C19"] = ("E-SEQ", ESEQ + "; LUSERS/ISON/USERHOST probes in every state; connection-slot scenario per max_connections", "DESIGN.md §4 C19",
     "Every history up to the bound of registrations, +-i, OPER (repeated), -o/-O, AWAY, NICK, JOIN/PART, QUIT/EOF/KILL with LUSERS/ISON/USERHOST compared with recounts in every state; for max_connections 1..3 every pattern of connect/register/wrong password/invalid bytes/QUIT/EOF/KILL: never more than max served, counter = live connections, freed slots are served again.", NOTE)
+CLAIMED["C12"] = ("E-SEQ", "two-world (non-interference) explicit-state BFS: every reachable state is re-created in a second real server world with the hidden part deleted and the observer's query battery must be answered identically", "DESIGN.md §4 C12",
+    "Every history up to the bound in which a secret channel / an invisible user comes into being; in every state where the hiding condition holds the observer's LIST/NAMES/WHO/WHOIS queries (names, comma lists, wildcard masks, no argument) are answered identically in the world with and the world without the hidden part; messages into the secret channel reach nobody.", NOTE)
+CLAIMED["C13"] = ("E-FUN", EFUN + " (RFC tokenizer, arity table); segmentation/limit sweep of the codec; relay round trip in real worlds", "DESIGN.md §4 C13",
+    "All strings up to length L over {A,a,space,:,comma,#} through the real parser vs a reference tokenizer; 41 verbs x letter case x arity through Command::from_message and on the wire (461/421); a 3-line payload at every 1- and 2-cut segmentation, lines around the 2000-byte limit, blank lines; every relayed verb with every short text over {a,space,:} re-parsed at the receiver.", NOTE)
 PENDING = {}
 
 def main():
@@ -69,7 +73,7 @@ def main():
         "hooks": {
             "guard": "--cfg simple_irc_server_verif",
             "enable": "RUSTFLAGS-equivalent in /verif/mc/.cargo/config.toml: build.rustflags = [\"--cfg\", \"simple_irc_server_verif\"]; the harness crate includes /repo/src/*.rs via #[path]",
-            "baseline_off_cmd": "cd /repo && cargo test --offline --no-fail-fast",
+            "baseline_off_cmd": "/verif/baseline_off.sh",
             "source_commits": [c.split()[0] for c in HOOK_COMMITS],
             "add_only": True,
         },
